@@ -149,6 +149,10 @@ class Gen:
             k.append('session:lut')
         if d and d.get('tu_meta'):
             k.append('session:tu')
+        if self.sm:
+            k.append('session:sec')
+        if self.gm:
+            k.append('session:seg')
         return sorted(set(k))
 
     # -------------------------------------------------------------------------------
@@ -249,6 +253,19 @@ class Gen:
             names = [x[0] for x in items]
             cand = [['get', _names(r, names)], ['get', _names(r, names)], ['items', _take(r, len(items))], ['get_cu_headers'], ['len'], ['keys']]
             target = ['lut', which]
+        elif ttype == 'sec':
+            # any Section object kept by the caller: its contents asked for more than once (decompression state, ...)
+            m = inst or r.choice(self._held_secs())
+            cand = [['data'], ['data'], ['secinfo']]
+            target = ['sec', m['i']]
+            nq = r.randrange(2, 4)
+        elif ttype == 'seg':
+            g = inst or r.choice(self.gm)
+            cand = [['data'], ['data'], ['seginfo']]
+            if g['cls'] == 'InterpSegment':
+                cand += [['get_interp_name'], ['get_interp_name']]
+            target = ['seg', g['j']]
+            nq = r.randrange(2, 4)
         elif ttype == 'tu':
             t = r.choice(d['tu_meta'])
             cand = [['get_top_DIE'], ['iter_DIEs', _take(r, 6)], ['size'], ['get_DIE_from_refaddr', t['off'] + t['type_offset']]]
@@ -340,6 +357,8 @@ class Gen:
             'rel': sorted(c['relocs']),
             'ver': self.by_cls('GNUVerDefSection', 'GNUVerNeedSection'),
             'hash': self.by_cls('ELFHashSection', 'GNUHashSection'),
+            'sec': self._held_secs(),
+            'seg': [g for g in self.gm if g['cls'] != 'Segment'][:4] + self.gm[:2],
         }
         complete = []
         sampled = []
@@ -383,6 +402,12 @@ class Gen:
                     self._inst = None
                 add(o)
         return out
+
+    def _held_secs(self):
+        """Sections worth holding on to: every compressed one (flag or legacy name) and a few of the others."""
+        comp = [m for m in self.sm if (isinstance(m['flags'], int) and m['flags'] & 0x800) or str(m['name']).startswith('.zdebug')]
+        rest = [m for m in self.sm if m not in comp and m['type'] != 'SHT_NOBITS' and isinstance(m['size'], int) and m['size'] <= 1 << 16]
+        return comp[:6] + rest[:3] + rest[-2:] or self.sm[:1]
 
     def _unit(self, with_flat=True):
         us = [m for m in self.dw['unit_meta'] if m['flat']] if with_flat else self.dw['unit_meta']
